@@ -84,8 +84,44 @@ def optTok : Option String → List String
   | none => []
   | some s => [s]
 
-/-- `RstAction::Condition::tokens()`; `none` = `format_double` is not defined for the constant -/
+/-- `static_cast<int>(d)` for a finite double: sign and magnitude of the truncated value -/
+def truncDouble (b : Nat) : Option (Bool × Nat) :=
+  let neg : Bool := decide (2 ^ 63 ≤ b)
+  let e := (b % 2 ^ 63) / 2 ^ 52
+  let m := b % 2 ^ 52
+  if e = 2047 then none
+  else
+    let sig := if e = 0 then m else 2 ^ 52 + m
+    let ee := if e = 0 then 1 else e
+    some (neg, if 1075 ≤ ee then sig * 2 ^ (ee - 1075) else sig / 2 ^ (1075 - ee))
+
+/-- `TimeService::eclipseMonthNames()` -/
+def monthNames : List String :=
+  ["JAN", "FEB", "MAR", "APR", "MAY", "JUN", "JUL", "AUG", "SEP", "OCT", "NOV", "DEC"]
+
+/-- `eclipseMonthNames().at(static_cast<int>(v))`; `none` = `std::out_of_range` (or not finite) -/
+def monthToken (b : Nat) : Option String :=
+  match truncDouble b with
+  | some (false, k) => if 1 ≤ k ∧ k ≤ 12 then monthNames[k - 1]? else none
+  | _ => none
+
+def logicToks (logic : Nat) : List String :=
+  (if logic = 1 then ["AND"] else []) ++ (if logic = 2 then ["OR"] else [])
+
+/-- `RstAction::Condition` + `tokens()`.  A DAY / MNTH / YEAR condition (IACN quantity type 10 / 11 / 12) is rebuilt
+from the type alone: canonical name, the constant (MNTH: the month NAME of the truncated value), and the constructor
+returns BEFORE the parenthesis slot is read — such a condition never carries a parenthesis.
+`none` = `format_double` is not defined for the constant, or the month index is out of range (the reader throws). -/
 def rstTokens (c : RstCond) : Option (List String) :=
+  if c.lhs = "DAY" ∨ c.lhs = "YEAR" then
+    match c.rhs with
+    | .value b => (fmtDouble b).map fun s => c.lhs :: cmpString c.op :: String.ofList s :: logicToks c.logic
+    | .name _ _ => none
+  else if c.lhs = "MNTH" then
+    match c.rhs with
+    | .value b => (monthToken b).map fun mn => "MNTH" :: cmpString c.op :: mn :: logicToks c.logic
+    | .name _ _ => none
+  else
   let rhs : Option (List String) := match c.rhs with
     | .name q wg => some (q :: optTok wg)
     | .value b => (fmtDouble b).map fun s => [String.ofList s]
@@ -93,8 +129,7 @@ def rstTokens (c : RstCond) : Option (List String) :=
   | none => none
   | some r =>
     some ((if c.lp then ["("] else []) ++ c.lhs :: optTok c.lhsWg ++ cmpString c.op :: r
-          ++ (if c.rp then [")"] else [])
-          ++ (if c.logic = 1 then ["AND"] else []) ++ (if c.logic = 2 then ["OR"] else []))
+          ++ (if c.rp then [")"] else []) ++ logicToks c.logic)
 
 /-- all conditions of one restart action, in order -/
 def rstAllTokens : List RstCond → Option (List String)
